@@ -429,6 +429,22 @@ BUILTIN_NAMES = ["max", "format", "input", "type", "id", "filter", "min", "dir"]
 def pyname(shape: Shape, v: str) -> str:
     """Python identifier of the abstract variable v (realisation `var_names`: "builtin" gives the
     variables names that shadow Python builtins -- they are ordinary module variables all the same)."""
+    if shape.real.get("var_names") == "funs":
+        # (split layout only) the variable carries the name of a FUNCTION that lives in another module and
+        # is called from elsewhere: names are per module, what one module calls a function another may
+        # call a variable
+        readers = [f for f in shape.funs if v in shape.reads[f]]
+        mentioned = set(s_["g"] for f in shape.funs for s_ in shape.stmts[f] if s_["k"] in ("call", "ref", "keep"))
+        taken = set()
+        for w in shape.vars:
+            if w == v:
+                break
+            taken.add(pyname(shape, w))
+        for g in shape.funs:
+            if (g in mentioned and g not in readers and g not in taken
+                    and not any(s_.get("g") == g for f in readers for s_ in shape.stmts[f])):
+                return g
+        return v
     if shape.real.get("var_names") == "builtin":
         return BUILTIN_NAMES[shape.vars.index(v) % len(BUILTIN_NAMES)] + ("" if shape.vars.index(v) < len(BUILTIN_NAMES) else "_%d" % shape.vars.index(v))
     return v
